@@ -9,7 +9,7 @@ pub const DENOMS: [&str; 3] = ["uatom", "TOKEN", "eth"];
 pub const N_USERS: usize = 4;
 
 /// index (modulo the number of existing contracts, in creation order); 255 = a valid address
-/// at which no contract exists
+/// at which no contract exists; 254 = a string that is not an address at all
 #[derive(Clone, Copy, Debug, Serialize, Deserialize, PartialEq, Eq)]
 pub struct CRef(pub u8);
 
@@ -22,6 +22,14 @@ pub enum ARef {
     User(u8),
     C(CRef),
     Fresh(u8),
+    /// a plain name that is not an address of the chain's codec ("raw0", "RAW1"): it can sign a
+    /// top-level message and be recorded as a contract's admin (both are taken unchecked), but it
+    /// cannot be validated, so it cannot be minted to, become admin through UpdateAdmin or be queried
+    /// (it can be sent coins: the bank takes the recipient of a Send unchecked)
+    Raw(u8),
+    /// the address of user `i` written in the *other* checksum variant (Bech32m) with the chain's own
+    /// prefix: well-formed, but not an address of this chain's codec; treated like a raw name
+    Alien(u8),
 }
 
 #[derive(Clone, Copy, Debug, Serialize, Deserialize, PartialEq, Eq)]
